@@ -616,13 +616,17 @@ class FSA:
 
         """
         to_visit = deque(self.start_vertices)
+        # mark states when they are queued (not when they are popped):
+        # otherwise a state is queued once per path reaching it, and
+        # the running time grows like the number of accepted words
         visited = {
             v : False for v in self.vertices()
         }
+        for v in to_visit:
+            visited[v] = True
         new_automaton = FSA(start_vertices=self.start_vertices)
         while(len(to_visit) > 0):
             v = to_visit.popleft()
-            visited[v] = True
             new_automaton.add_vertices([v])
 
             for word, neighbor in self.enumerate_fixed_length_paths(
@@ -635,6 +639,7 @@ class FSA:
                                         elist=False)
 
                 if not visited[neighbor]:
+                    visited[neighbor] = True
                     to_visit.append(neighbor)
 
         return new_automaton
